@@ -2,93 +2,156 @@
    (src/vnacal_new_solve_trl.c) and the dispatch of _vnacal_new_solve_internal, as coded; and the
    write-back of solved values into the parameter object.  No proofs in this file.
 
-   An S cell of a standard is a pointer to a per-calibration parameter structure; all the code
-   looks at is pointer identity with vn_zero, identity of the underlying parameter with the
-   predefined VNACAL_ONE, the parameter type (UNKNOWN / CORRELATED / known) and identity of two
-   cells.  Cells are therefore modelled by the constructors below with equality = identity.
+   An S cell of a standard (vnm_s_matrix[i]) is a pointer to a per-calibration parameter structure
+   or NULL: the add functions leave the cells NULL that the caller did not specify (single reflect
+   on port 2 of a 2x2 calibration: [NULL 0; 0 r]; double reflect given as a 2-port standard has all
+   four cells, a double reflect inside a wider calibration does not).  All the code looks at is
+     - pointer identity with vn_zero and of two cells with each other   (no dereference),
+     - identity of the underlying parameter with the predefined VNACAL_ONE  (s[i]->vnpr_parameter),
+     - the parameter type UNKNOWN / CORRELATED / known        (s[i]->vnpr_parameter->vpmr_type),
+     - the unknown index                                       (s[i]->vnpr_unknown_index).
+   The last three dereference s[i]; in the model they return [Fault] on an absent cell, so that a
+   classification that reads through a NULL cell is visible as a result, not hidden by a default.
+   Cells are modelled by the constructors below with equality = pointer identity.
    (VNACAL_MATCH = VNACAL_ZERO and VNACAL_OPEN = VNACAL_ONE are the same parameters.) *)
 Require Import List Arith Bool Permutation.
 Import ListNotations.
 
-Inductive cell := Zero | One | Known (id : nat) | Unknown (id : nat) | Corr (id : nat).
+Inductive cell := Absent | Zero | One | Known (id : nat) | Unknown (id : nat) | Corr (id : nat).
 
+(* the result of a computation that may read through a NULL pointer *)
+Inductive res (A : Type) := Val (a : A) | Fault.
+Arguments Val {A}. Arguments Fault {A}.
+Definition bind {A B} (r : res A) (f : A -> res B) : res B :=
+  match r with Val a => f a | Fault => Fault end.
+
+(* ---- pointer comparisons: no dereference, defined on NULL (NULL == NULL) ---- *)
 Definition cell_eqb (a b : cell) : bool :=
   match a, b with
-  | Zero, Zero | One, One => true
+  | Absent, Absent | Zero, Zero | One, One => true
   | Known i, Known j | Unknown i, Unknown j | Corr i, Corr j => Nat.eqb i j
   | _, _ => false
   end.
-Definition is_zero (c : cell) := match c with Zero => true | _ => false end.
-Definition is_one (c : cell) := match c with One => true | _ => false end.
+Definition is_zero (c : cell) := match c with Zero => true | _ => false end.   (* s[i] == vnp->vn_zero *)
+Definition is_absent (c : cell) := match c with Absent => true | _ => false end. (* s[i] == NULL *)
+
+(* ---- dereferences ---- *)
+(* s[i]->vnpr_parameter == vnprp_one *)
+Definition param_is_one (c : cell) : res bool :=
+  match c with Absent => Fault | One => Val true | _ => Val false end.
+(* s[i]->vnpr_parameter->vpmr_type == VNACAL_UNKNOWN, and when it is, s[i]->vnpr_unknown_index *)
+Definition as_unknown (c : cell) : res (option nat) :=
+  match c with Absent => Fault | Unknown u => Val (Some u) | _ => Val None end.
 
 (* s[0], s[1], s[2], s[3] of a 2x2 standard *)
 Definition std := (cell * cell * cell * cell)%type.
 
 Inductive which := WT | WR (u : nat) | WL (u : nat) | WNone.
 
-Definition classify (s : std) : which :=
+(* classify_standard from "vnprp_one = ..." to the end, statement by statement; && evaluates its
+   right operand only when the left one is true *)
+Definition classify_body (s : std) : res which :=
   let '(s0, s1, s2, s3) := s in
-  if is_one s1 then
-    (if is_one s2 && is_zero s0 && is_zero s3 then WT else WNone)
+  bind (param_is_one s1) (fun one1 =>
+  if one1 then
+    bind (param_is_one s2) (fun one2 =>
+    if one2 && is_zero s0 && is_zero s3 then Val WT else Val WNone)
   else if is_zero s1 then
-    match s0 with
-    | Unknown u => if cell_eqb s3 s0 && is_zero s2 then WR u else WNone
-    | _ => WNone
-    end
+    bind (as_unknown s0) (fun u0 =>
+    match u0 with
+    | Some u => if cell_eqb s3 s0 && is_zero s2 then Val (WR u) else Val WNone
+    | None => Val WNone
+    end)
   else if is_zero s0 && is_zero s3 then
-    match s1 with
-    | Unknown u => if cell_eqb s2 s1 then WL u else WNone
-    | _ => WNone
-    end
-  else WNone.
+    bind (as_unknown s1) (fun u1 =>
+    match u1 with
+    | Some u => if cell_eqb s2 s1 then Val (WL u) else Val WNone
+    | None => Val WNone
+    end)
+  else Val WNone).
+
+(* classify_standard as it is now: "for (i = 0; i < 4; ++i) if (s[i] == NULL) return TRL_NONE;" first *)
+Definition classify (s : std) : res which :=
+  let '(s0, s1, s2, s3) := s in
+  if is_absent s0 || is_absent s1 || is_absent s2 || is_absent s3 then Val WNone
+  else classify_body s.
 
 Inductive caltype := T8 | U8 | TE10 | UE10 | T16 | U16 | UE14 | E12.
 Definition eight_term (t : caltype) : bool :=
   match t with T8 | U8 | TE10 | UE10 => true | _ => false end.
 
-(* the loop over the standards: duplicates of a class and unclassifiable standards refuse *)
-Fixpoint scan (stds : list std) (t r l : bool) : bool :=
+(* the loop over the standards: duplicates of a class and unclassifiable standards refuse; the
+   loop stops at the first refusal (later standards are not classified) *)
+Section Scan.
+Variable cls : std -> res which.
+Fixpoint scan (stds : list std) (t r l : bool) : res bool :=
   match stds with
-  | [] => true
+  | [] => Val true
   | s :: rest =>
-    match classify s with
-    | WT => if t then false else scan rest true r l
-    | WR _ => if r then false else scan rest t true l
-    | WL _ => if l then false else scan rest t r true
-    | WNone => false
-    end
+    bind (cls s) (fun w =>
+    match w with
+    | WT => if t then Val false else scan rest true r l
+    | WR _ => if r then Val false else scan rest t true l
+    | WL _ => if l then Val false else scan rest t r true
+    | WNone => Val false
+    end)
   end.
 
+(* the tests before the loop return false without looking at a standard *)
 Definition is_trl (ty : caltype) (rows cols : nat) (stds : list std)
-           (unknowns correlated : nat) (m_error : bool) : bool :=
-  Nat.eqb rows 2 && Nat.eqb cols 2 && eight_term ty &&
-  Nat.eqb (length stds) 3 && Nat.eqb unknowns 2 && Nat.eqb correlated 0 && negb m_error &&
-  scan stds false false false.
+           (unknowns correlated : nat) (m_error : bool) : res bool :=
+  if Nat.eqb rows 2 && Nat.eqb cols 2 && eight_term ty &&
+     Nat.eqb (length stds) 3 && Nat.eqb unknowns 2 && Nat.eqb correlated 0 && negb m_error
+  then scan stds false false false else Val false.
+End Scan.
 
 Inductive path := PathTrl | PathSimple | PathAuto.
 
-Definition dispatch (ty : caltype) (rows cols : nat) (stds : list std)
-           (unknowns correlated : nat) (m_error : bool) : path :=
-  if is_trl ty rows cols stds unknowns correlated m_error then PathTrl
-  else if Nat.eqb unknowns 0 then PathSimple else PathAuto.
+Definition dispatch_with (cls : std -> res which) (ty : caltype) (rows cols : nat) (stds : list std)
+           (unknowns correlated : nat) (m_error : bool) : res path :=
+  bind (is_trl cls ty rows cols stds unknowns correlated m_error) (fun trl =>
+  Val (if trl then PathTrl else if Nat.eqb unknowns 0 then PathSimple else PathAuto)).
+
+(* _vnacal_new_solve_internal as it is now *)
+Definition dispatch := dispatch_with classify.
+(* the same with classify_standard as it was before fix D69 (no NULL test): kept only to document
+   that finding *)
+Definition dispatch_before_D69 := dispatch_with classify_body.
 
 Definition std_T : std := (Zero, One, One, Zero).
 Definition std_R (a : nat) : std := (Unknown a, Zero, Zero, Unknown a).
 Definition std_L (b : nat) : std := (Zero, Unknown b, Unknown b, Zero).
+(* what vnacal_new_add_single_reflect leaves in a 2x2 calibration *)
+Definition std_single1 (c : cell) : std := (c, Zero, Zero, Absent).
+Definition std_single2 (c : cell) : std := (Absent, Zero, Zero, c).
+
+Definition has_absent (s : std) : bool :=
+  let '(s0, s1, s2, s3) := s in is_absent s0 || is_absent s1 || is_absent s2 || is_absent s3.
 
 (* ---------------- write-back of the solved values ---------------- *)
 Section Writeback.
 Variables F V : Type.                       (* frequencies, values *)
 Variable F_eqb : F -> F -> bool.
+Variable f0 : F.                            (* 0.0 from calloc *)
 
-Record pobj := PObj { pf : list F; pg : list V }.     (* vpmr_frequency_vector, vpmr_gamma_vector *)
+(* vpmr_frequency_vector (vpmr_frequencies = its length), vpmr_gamma_vector *)
+Record pobj := PObj { pf : list F; pg : list V }.
 
-(* _vnacal_new_solve_internal, "store them into the corresponding parameter structures":
-   the frequency vector is reallocated when the count differs; the calibration grid is copied
-     copy_always = true : unconditionally
-     copy_always = false: only together with the reallocation *)
-Definition writeback (copy_always : bool) (old : pobj) (fs : list F) (vs : list V) : pobj :=
-  PObj (if copy_always then fs else if Nat.eqb (length (pf old)) (length fs) then pf old else fs) vs.
+(* memcpy(dst, src, n * sizeof) with n = |src| <= |dst| *)
+Definition memcpy_over (dst src : list F) : list F := src ++ skipn (length src) dst.
+
+(* _vnacal_new_solve_internal, "store them into the corresponding parameter structures", step by step:
+     free(gamma);  if (vpmr_frequencies != frequencies) { free; calloc(frequencies) }
+     memcpy(vpmr_frequency_vector, vn_frequency_vector, frequencies)      (unconditionally)
+     vpmr_gamma_vector = p_vector[index] *)
+Definition writeback (old : pobj) (fs : list F) (vs : list V) : pobj :=
+  let fv := if Nat.eqb (length (pf old)) (length fs) then pf old else repeat f0 (length fs) in
+  PObj (memcpy_over fv fs) vs.
+
+(* model variant (not the code): the calibration grid is copied only inside the reallocation
+   branch -- the shape of seeded change C02-1, kept as a regression witness *)
+Definition writeback_variant_copy_on_realloc (old : pobj) (fs : list F) (vs : list V) : pobj :=
+  PObj (if Nat.eqb (length (pf old)) (length fs) then pf old else memcpy_over (repeat f0 (length fs)) fs) vs.
 
 (* value at a stored frequency point (interpolation is exact at the knots: C10) *)
 Fixpoint lookup (fs : list F) (vs : list V) (f : F) : option V :=
